@@ -116,6 +116,21 @@ def make_case(seed, i, tier='quick'):
     fn_inputs = fn_outputs = None
     if kind == 'function':
         X = [x for x in gen_overrides(rng, desc) if x[0] in ('cell', 'range')]
+        # prefer a sparse rectangle (>= 2 unpopulated cells) among the inputs
+        ev_ = rw.Evaluator(desc)
+        sparse = [r for r in _rect_nodes(desc) if sum(
+            1 for c in range(r[2], r[4] + 1) for rr_ in range(r[3], r[5] + 1)
+            if not ev_.populated((r[0], r[1], c, rr_))) >= 2]
+        if sparse and rng.random() < 0.7:
+            r = rng.choice(sparse)
+            cells_ = {(r[0], r[1], c, rr_) for c in range(r[2], r[4] + 1)
+                      for rr_ in range(r[3], r[5] + 1)}
+            X = [x for x in X if not (
+                (x[0] == 'cell' and tuple(x[1]) in cells_) or
+                (x[0] == 'range' and cells_ & {
+                    (x[1][0], x[1][1], c, rr_) for c in range(x[1][2], x[1][4] + 1)
+                    for rr_ in range(x[1][3], x[1][5] + 1)}))]
+            X.append(['range', list(r), None])
         if not X:
             kind = 'model'
         else:
